@@ -729,3 +729,10 @@ Example store_after_returns_nil :
 Proof. vm_compute. reflexivity. Qed.
 Example store_after_is_not_good : good_cfg store_after_cfg = false.
 Proof. reflexivity. Qed.
+
+(* a send without callback (every phase-two response, every heartbeat) neither reads nor changes
+   the pending-request table, whatever is pending and whatever id it carries *)
+Lemma write_inert c s id wf : c_store_nocb c = false -> step c s (EWrite id wf) = s.
+Proof.
+  intro H. cbn [step]. unfold write_nocb. rewrite H, !andb_false_r. reflexivity.
+Qed.
